@@ -2,7 +2,7 @@
 
 mod alloc;
 mod bfs;
-#[cfg(feature = "fin")]
+#[allow(dead_code)]
 mod chain;
 mod containers;
 mod containers_gen;
